@@ -313,3 +313,30 @@ Definition check_case (k : list (string * string) * list comp * (list obs * list
 (* the traversal alone, on arbitrary nested dictionaries: (value, buffer) *)
 Definition check_ser (k : jv * option string) : bool :=
   opt_eqb String.eqb (ser_jv (fst k)) (snd k).
+
+(* ---------------------------------------------------------------- shape of the file entries.
+   strong (and fuzzy, for a file that no component made):  <digest>:<method>
+   fuzzy, file made by a component:                         fuzzy#<digest>#<path below the producer>:<method>
+   digest = 32 lower-case hexadecimal characters (hashlib md5().hexdigest()); method = one of
+   FlowIR.data_reference_methods; the path contains no ':' (a reference has exactly one). *)
+Definition is_hex (a : ascii) : bool :=
+  is_digit a || (let n := nat_of_ascii a in Nat.leb 97 n && Nat.leb n 102).
+Definition hex32 (h : string) : bool := Nat.eqb (String.length h) 32 && all_chars is_hex h.
+Definition METHODS : list string :=
+  ["copy"; "link"; "ref"; "copyout"; "extract"; "output"; "loopref"; "loopoutput"].
+Definition mem (m : string) (l : list string) : bool := existsb (String.eqb m) l.
+Definition not_colon (a : ascii) : bool := negb (Ascii.eqb a ":").
+
+Definition wf_strong (e : string) : bool :=
+  hex32 (take 32 e) && prefixb ":" (drop 32 e) && mem (drop 33 e) METHODS.
+Definition wf_fuzzy (e : string) : bool :=
+  prefixb "fuzzy#" e &&
+  (let r := drop 6 e in
+   hex32 (take 32 r) && prefixb "#" (drop 32 r) &&
+   match split1 ":" (drop 33 r) with Some (_, m) => mem m METHODS | None => false end).
+Definition wf_entry (e : string) : bool := wf_strong e || wf_fuzzy e.
+Definition wf_files (l : list string) : bool := forallb wf_entry l.
+
+(* what the file list of a component is well-formed under: md5 gives digests (on the contents read and on
+   the buffers hashed), methods are reference methods, paths below a producer contain no ':' *)
+Definition wf_ref (r : dref) : bool := mem (d_method r) METHODS && all_chars not_colon (d_fileref r).
